@@ -91,6 +91,9 @@ const S1_RULES: &[&str] = &[
     // the same regex text without match-case, reachable by image requests only: whichever of the two
     // is compiled first, each keeps its own case handling
     "/CaSe[0-9]/$image",
+    // a tagged full-regex rule that does not compile (look-ahead): it never matches, whatever is
+    // remembered about the attempt must go when the rule goes
+    "/fo(?!x)o/$tag=b",
     "@@foo*bar/ok^",
     "||imp.com^*z$important",
     "||x.com^$csp=d1,tag=a",
